@@ -123,7 +123,14 @@ public:
         std::vector<uint8_t> tmp(ct_);
         PageLockGuard g1(tmp.data(), tmp.size());
         xor_keystream_inplace_with_key(tmp.data(), tmp.size(), nonce_.data(), subkey, sizeof subkey);
-        fn(tmp.data(), tmp.size());
+        try {
+            fn(tmp.data(), tmp.size());
+        } catch (...) {
+            secure_zero(tmp.data(), tmp.size());
+            secure_zero(subkey, sizeof subkey);
+            secure_zero(expected, sizeof expected);
+            throw;
+        }
         secure_zero(tmp.data(), tmp.size());
         secure_zero(subkey, sizeof subkey);
         secure_zero(expected, sizeof expected);
